@@ -824,9 +824,12 @@ CHECK = Check(
     rule=(
         "case = one-shot serializer spec (every zoo entry incl. Pickle through a restricted unpickler, the default one-shot path of "
         "serializers/abc.py through a harness length-prefixed serializer, the three stapled shapes, wrappers, converter on/off) x "
-        "1-12 inbound datagrams each valid / truncated / extended / two glued / random / converter-refused x 0-6 packets to send x "
+        "1-12 inbound datagrams each valid / truncated / extended / two glued / random / converter-refused / (Pickle) well-formed opcode program that fails on execution x 0-6 packets to send x "
         "interleaving x permutation (x scripted TimeoutError faults, task checkpoints); layers: DatagramProtocol alone, DatagramEndpoint "
         "over a scripted transport, AsyncDatagramEndpoint over an in-memory transport on the asyncio backend, UDP clients on loopback; "
+        "layer large: 1-5 datagrams of 1..65527 bytes (at least one above 65000) through the blocking transport/client over a simulated "
+        "socket that truncates to the recv buffer and through both clients over real IPv6 loopback, non-trivial = a valid datagram above "
+        "the IPv4 maximum of 65507 bytes; "
         "non-trivial = a datagram that yields a parse error is directly followed by a valid one; distinct = sha1 of the canonical case JSON"
     ),
     layers=[
